@@ -434,7 +434,10 @@ def make_c11(env, stats):
                     printed.add(w)
             else:
                 check_spoiled(env, d, t, o, pr, kinds, res=res)
-        if len(printed) > 1:
+        # "identically for every combination of algorithm and parallelism options": the printed numbers must agree to the
+        # 6 significant digits the programs print (each of them was already compared with the optimum above)
+        vals = sorted(float(x) for x in printed if x is not None)
+        if vals and vals[-1] - vals[0] > 1e-5 * max(abs(vals[-1]), 1e-300):
             raise Violation("C11/mcb-dimacs/valid-serial/weights-differ-across-options", "printed weights %s for one file" % sorted(printed),
                             case_of("mcb-dimacs", text, ex["exact"][0][0], 0))
         lines = slines
@@ -456,7 +459,12 @@ def make_c20(env, stats):
     def prop(ex):
         text = dimacs_text(ex["n"], [(u, v, str(w)) for u, v, w in ex["edges"]])
         path = env.write(text)
-        for o, par, cores in ex["opts"]:
+        for idx, (o, par, cores) in enumerate(ex["opts"]):
+            if ex["affinity"] and idx % 2 == 0:
+                # restricted affinity: ask for exactly the machine's CPU count with a parallel algorithm (the count the demos
+                # compute themselves for --cores=0; TBB's own default is the size of the affinity mask)
+                o = [x for x in o if not x.startswith("--cores=") and not x.startswith("--parallel=")] + ["--parallel=true", "--cores=%d" % hw_threads()]
+                par, cores = True, hw_threads()
             oo = o + (["--k=2"] if ex["demo"] == "approx-mcb-dimacs" else [])
             rc, out, err, to, dt = env.launch(ex["demo"], path, oo, affinity=ex["affinity"])
             if ex["affinity"]:
